@@ -56,7 +56,7 @@ fn main() {
             "c12-stress" => sinks::c12_stress(&sc),
             "holder-window" => holder::replay(&sc),
             "macro" => macros::replay(&sc),
-            "queue" | "queue-capacity" | "queue-blocking-emit" | "queue-stats" => queue::replay(&sc),
+            "queue" | "queue-capacity" | "queue-blocking-emit" | "queue-stats" | "queue-sampler" => queue::replay(&sc),
             _ => json!({"error": format!("unknown scenario kind {}", kind)}),
         };
         outs.push(out);
